@@ -192,7 +192,10 @@ yield1:
 		YIELD(3);
 	}
 	/* read CHUNK_SIZE bytes */
-	bno += (nrd = read(ctx->fd, bno, CHUNK_SIZE));
+	if ((nrd = read(ctx->fd, bno, CHUNK_SIZE)) > 0) {
+		/* on error leave what we've got as is */
+		bno += nrd;
+	}
 #if defined DATEUTILS_VERIF
 	if (nrd > 0) {
 		verif_nrd += (unsigned long)nrd;
